@@ -9,11 +9,43 @@ Section Rf.
 Variable H : bytes -> bytes.
 Hypothesis Hlen : forall x, length (H x) = 32.
 Variable atomic : bool.
+Variable climit : nat.
 
 Notation enc := (enc H).
 Notation lrep := (lrep H).
 Notation canb := (canb H).
-Notation inv_st := (inv_st H).
+Notation inv_st := (inv_st H climit).
+
+(** the liveCache entry of the replaced batch root, if still there, is the final batch *)
+Definition cache_res (st' : store) (root : bytes) (b' : batch) : Prop :=
+  forall bx, alookup (cache st') (map_key root) = Some bx -> bx = b'.
+
+Lemma alookup_aremove_same {A} (l : list (bytes * A)) k : alookup (aremove l k) k = None.
+Proof.
+  induction l as [|[k' v'] l IH]; simpl; [reflexivity|]. destruct (beqb k' k) eqn:E0; [exact IH|].
+  simpl. rewrite E0. exact IH.
+Qed.
+
+Lemma delete_cache_res st root height mv b : climit <= height ->
+  cache_res (delete_old_node atomic climit st root height mv) root b.
+Proof.
+  intros Hc bx. unfold delete_old_node. simpl. apply Nat.leb_le in Hc. rewrite Hc.
+  rewrite alookup_aremove_same. discriminate.
+Qed.
+
+Lemma store_node_cache_res st b hh old height : climit <= height -> 32 <= length hh ->
+  cache_res (store_node atomic climit st b hh old height) old b.
+Proof.
+  intros Hc Lh. unfold store_node.
+  destruct (Nat.ltb (length old) 32 || negb (beqb (hash_of hh) (hash_of old))) eqn:Ed.
+  - apply delete_cache_res. exact Hc.
+  - apply orb_false_iff in Ed. destruct Ed as [E1 E2]. apply Nat.ltb_ge in E1.
+    apply negb_false_iff in E2. apply beqb_eq in E2.
+    intros bx. simpl. apply Nat.leb_le in Hc. rewrite Hc.
+    rewrite (map_key_hash_of old E1), <- E2, <- (map_key_hash_of hh Lh). simpl.
+    rewrite (proj2 (beqb_eq _ _) eq_refl). intros Hx. inversion Hx. reflexivity.
+Qed.
+
 
 (** which slots a node of height h can occupy in its batch *)
 Definition lvl (h i : nat) : Prop :=
@@ -102,9 +134,10 @@ Qed.
 Lemma leaf_hash_spec st k v root b i h rp st' b' n :
   inv_st st -> length rp + h = 256 -> length k = h -> length v = 32 -> lvl h i -> length b = 31 ->
   clean b (2 * i + 1) -> clean b (2 * i + 2) ->
-  leaf_hash_b H atomic st (keyb rp k) v root b i h = (st', b', n) ->
+  leaf_hash_b H atomic climit st (keyb rp k) v root b i h = (st', b', n) ->
   n = enc h rp (Lf k v) /\ inv_st st' /\ length b' = 31 /\ lrep h b' i rp (Lf k v) /\
-  (i <> 0 -> forall j, j <= 30 -> underb i j = false -> bget b' j = bget b j).
+  (i <> 0 -> forall j, j <= 30 -> underb i j = false -> bget b' j = bget b j) /\
+  (i = 0 -> climit <= h -> cache_res st' root b').
 Proof.
   intros Hinv Hh Hk Hv Hl L C1 C2 E. pose proof (lvl_le _ _ Hl) as Hi.
   destruct (under_facts i (2 * i + 1) Hi ltac:(lia)) as (F1 & F2 & F3 & F4 & F5 & F6 & F7).
@@ -136,13 +169,14 @@ Proof.
     + apply inv_store_node; auto. rewrite Hn.
       rewrite map_key_hash_of by (rewrite enc_length by (auto; discriminate); lia).
       rewrite hash_of_enc by (auto; discriminate).
-      exists h, rp, (Lf k v). split; [exact Em|]. split; [exact Hh|]. split; [exact Hk|]. split; [exact Hv|].
+      exists rp, (Lf k v). split; [exact Em|]. split; [exact Hh|]. split; [exact Hk|]. split; [exact Hv|].
       split; [discriminate|]. split; [reflexivity|]. split; [unfold b2; rewrite bset_length; exact Lb1|].
       split; [unfold b2; apply bget_bset_same; lia|exact R2].
-    + split; [unfold b2; rewrite bset_length; exact Lb1|]. split; [exact R2|]. intros Hc; congruence.
+    + split; [unfold b2; rewrite bset_length; exact Lb1|]. split; [exact R2|]. split; [intros Hc; congruence|].
+      intros _ Hcl. apply store_node_cache_res; auto. rewrite app_length, Hlen. simpl. lia.
   - inversion E; subst st' b' n; clear E.
-    split; [exact Hn|]. split; [exact Hinv|]. split; [exact Lb1|]. split; [|exact Hframe].
-    cbn [BatchRep.lrep]. repeat split; auto.
+    split; [exact Hn|]. split; [exact Hinv|]. split; [exact Lb1|]. split; [cbn [BatchRep.lrep]; repeat split; auto|].
+    split; [exact Hframe|]. intros Hi0. exfalso. subst i. apply Nat.eqb_neq in Em. apply Em. apply (lvl_zero _ _ Hl). reflexivity.
 Qed.
 
 (** ---- interiorHash ---- *)
@@ -150,9 +184,10 @@ Lemma interior_hash_spec st l r root b i h' rp st' b' n :
   inv_st st -> length rp + S h' = 256 -> wf h' l -> wf h' r -> vals32 l -> vals32 r ->
   lvl (S h') i -> length b = 31 ->
   crep h' b (2 * i + 1) (false :: rp) l -> crep h' b (2 * i + 2) (true :: rp) r ->
-  interior_hash_b H atomic st (enc h' (false :: rp) l) (enc h' (true :: rp) r) root b i (S h') = (st', b', n) ->
+  interior_hash_b H atomic climit st (enc h' (false :: rp) l) (enc h' (true :: rp) r) root b i (S h') = (st', b', n) ->
   n = enc (S h') rp (Nd l r) /\ inv_st st' /\ length b' = 31 /\ lrep (S h') b' i rp (Nd l r) /\
-  (i <> 0 -> forall j, j <= 30 -> underb i j = false -> bget b' j = bget b j).
+  (i <> 0 -> forall j, j <= 30 -> underb i j = false -> bget b' j = bget b j) /\
+  (i = 0 -> climit <= S h' -> cache_res st' root b').
 Proof.
   intros Hinv Hh Wl Wr Vl Vr Hl L Cl Cr E. pose proof (lvl_le _ _ Hl) as Hi.
   destruct (under_facts i (2 * i + 1) Hi ltac:(lia)) as (F1 & F2 & F3 & F4 & F5 & F6 & F7).
@@ -195,13 +230,14 @@ Proof.
     + apply inv_store_node; auto. rewrite Hn.
       rewrite map_key_hash_of by (rewrite enc_length by (auto; discriminate); lia).
       rewrite hash_of_enc by (auto; discriminate).
-      exists (S h'), rp, (Nd l r). split; [exact Em|]. split; [exact Hh|]. split; [split; assumption|]. split; [split; assumption|].
+      exists rp, (Nd l r). split; [exact Em|]. split; [exact Hh|]. split; [split; assumption|]. split; [split; assumption|].
       split; [discriminate|]. split; [reflexivity|]. split; [exact Lb2|].
       split; [unfold b2; apply bget_bset_same; lia|exact R2].
-    + split; [exact Lb2|]. split; [exact R2|]. intros Hc; congruence.
+    + split; [exact Lb2|]. split; [exact R2|]. split; [intros Hc; congruence|].
+      intros _ Hcl. apply store_node_cache_res; auto. rewrite app_length, Hlen. simpl. lia.
   - inversion E; subst st' b' n; clear E.
-    split; [exact Hn|]. split; [exact Hinv|]. split; [exact Lb1|]. split; [|exact Hframe].
-    apply R1; auto.
+    split; [exact Hn|]. split; [exact Hinv|]. split; [exact Lb1|]. split; [apply R1; auto|].
+    split; [exact Hframe|]. intros Hi0. exfalso. subst i. apply Nat.eqb_neq in Em. apply Em. apply (lvl_zero _ _ Hl). reflexivity.
 Qed.
 
 End Rf.
